@@ -4,22 +4,6 @@
 // from_index, visit maps, adjacency matrix in states WITH VACANCIES
 // ======================================================================================
 
-// ---- node_bound: one past the last live node (0 when there is none)
-pub open spec fn sbound<N, Ix: IndexType>(ns: Seq<Node<Option<N>, Ix>>, k: int) -> int
-    decreases k
-{
-    if k <= 0 { 0 } else if ns[k - 1].weight is Some { k } else { sbound(ns, k - 1) }
-}
-pub proof fn lemma_sbound<N, Ix: IndexType>(ns: Seq<Node<Option<N>, Ix>>, k: int)
-    requires 0 <= k <= ns.len()
-    ensures 0 <= sbound(ns, k) <= k,
-        forall|a: int| 0 <= a < k && nlive(ns, a) ==> a < sbound(ns, k),
-        sbound(ns, k) > 0 ==> nlive(ns, sbound(ns, k) - 1),
-    decreases k
-{
-    if k > 0 && !(ns[k - 1].weight is Some) { lemma_sbound(ns, k - 1); }
-}
-
 //@ item src/graph_impl/stable_graph/mod.rs | - | impl<N, E, Ty, Ix> visit::GraphBase for StableGraph<N, E, Ty, Ix> where Ix: IndexType
 impl<N, E, Ty, Ix> visit::GraphBase for StableGraph<N, E, Ty, Ix>
 where
@@ -119,6 +103,20 @@ where
 }
 //@ end
 
+//@ item src/graph_impl/stable_graph/mod.rs | - | impl<'a, N, E: 'a, Ty, Ix> visit::IntoNodeIdentifiers for &'a StableGraph<N, E, Ty, Ix> where Ty: EdgeType, Ix: IndexType
+impl<'a, N, E: 'a, Ty, Ix> visit::IntoNodeIdentifiers for &'a StableGraph<N, E, Ty, Ix>
+where
+    Ty: EdgeType,
+    Ix: IndexType,
+{
+    type NodeIdentifiers = NodeIndices<'a, N, Ix>;
+    /*+*/open spec fn node_ids(self) -> Seq<NodeIndex<Ix>> { live_nix::<N, Ix>(self.ns()) }/*-*/   // see StableGraph::lemma_live_nodes: every live node once, ascending, node_count of them
+    fn node_identifiers(self) -> Self::NodeIdentifiers {
+        StableGraph::node_indices(self)
+    }
+}
+//@ end
+
 // ---- edge references of a StableGraph
 //@ item src/graph_impl/stable_graph/mod.rs | - | struct EdgeReference
 /// Reference to a `StableGraph` edge.
@@ -168,28 +166,34 @@ where
 }
 //@ end
 
-// `EdgeReferences` wraps `iter::Enumerate<slice::Iter<Edge<Option<E>>>>` and skips vacant slots with the crate's `ex_find_map`;
-// neither has a vstd specification: the struct is opaque, `next` is TRUSTED, and what the iterator yields is ASSUMED to be
-// `live_refs` below: one reference per live edge slot, in index order.
+// `EdgeReferences` wraps `iter::Enumerate<slice::Iter<Edge<Option<E>>>>` and skips vacant slots with the crate's `ex_find_map` /
+// `ex_rfind_map` (fragment iter_utils.rs).  What is left to yield is the filter-map of what the wrapped enumeration has left.
+pub open spec fn seref_f<'a, E, Ix: IndexType>() -> spec_fn((usize, &'a Edge<Option<E>, Ix>)) -> Option<EdgeReference<'a, E, Ix>> {
+    |t: (usize, &'a Edge<Option<E>, Ix>)| match t.1.weight { Some(w) => Some(EdgeReference { index: EdgeIndex(Ix::spec_new(t.0)), node: t.1.node, weight: &w }), None => None }
+}
 //@ item src/graph_impl/stable_graph/mod.rs | - | struct EdgeReferences
 /// Iterator over all edges of a graph.
-/*+*/#[verifier::external_body]
-#[verifier::reject_recursive_types(E)]
+/*+*/#[verifier::reject_recursive_types(E)]
 #[verifier::reject_recursive_types(Ix)]/*-*/
 pub struct EdgeReferences<'a, E: 'a, Ix: 'a = DefaultIx> {
-    iter: iter::Enumerate<slice::Iter<'a, Edge<Option<E>, Ix>>>,
+    pub iter: iter::Enumerate<slice::Iter<'a, Edge<Option<E>, Ix>>>,
 }
 //@ end
 
 impl<'a, E, Ix: IndexType> EdgeReferences<'a, E, Ix> {
-    pub uninterp spec fn rest(&self) -> Seq<EdgeReference<'a, E, Ix>>;
+    #[verifier::prophetic]
+    pub open spec fn rest(&self) -> Seq<EdgeReference<'a, E, Ix>> { fm_seq(self.iter.remaining(), seref_f::<E, Ix>()) }
 }
 impl<'a, E, Ix: IndexType> vstd::std_specs::iter::IteratorSpecImpl for EdgeReferences<'a, E, Ix> {
-    open spec fn obeys_prophetic_iter_laws(&self) -> bool { true }
+    open spec fn obeys_prophetic_iter_laws(&self) -> bool { self.iter.obeys_prophetic_iter_laws() }
+    #[verifier::prophetic]
     open spec fn remaining(&self) -> Seq<EdgeReference<'a, E, Ix>> { self.rest() }
-    open spec fn decrease(&self) -> Option<nat> { Some(self.rest().len()) }
+    open spec fn decrease(&self) -> Option<nat> { self.iter.decrease() }
     open spec fn will_return_none(&self) -> bool { true }
     open spec fn peek(&self, i: int) -> Option<EdgeReference<'a, E, Ix>> { None }
+}
+impl<'a, E, Ix: IndexType> vstd::std_specs::iter::DoubleEndedIteratorSpecImpl for EdgeReferences<'a, E, Ix> {
+    open spec fn peek_back(&self, i: int) -> Option<EdgeReference<'a, E, Ix>> { None }
 }
 
 //@ item src/graph_impl/stable_graph/mod.rs | - | impl<'a, E, Ix> Iterator for EdgeReferences<'a, E, Ix> where Ix: IndexType
@@ -199,52 +203,81 @@ where
 {
     type Item = EdgeReference<'a, E, Ix>;
 
-    /*+*/#[verifier::external_body]/*-*/
     fn next(&mut self) -> Option<Self::Item> {
-        /*R:D20 self.iter.ex_find_map(|(i, edge)| {
-            edge.weight.as_ref().map(move |weight| EdgeReference {
+        /*+*/let ghost items = self.iter.remaining();
+        let r = {/*-*/ self.iter.ex_find_map(|/*R:D10 (i, edge) */ __t: (usize, &'a Edge<Option<E>, Ix>) /*-*/| /*+*/-> (q: Option<EdgeReference<'a, E, Ix>>) ensures q == seref_f::<E, Ix>()(__t)/*-*/ { /*+*/let (i, edge) = __t;/*-*/
+            edge.weight.as_ref().map(move |weight/*+*/: &'a E/*-*/| /*+*/-> (x: EdgeReference<'a, E, Ix>) ensures x == (EdgeReference { index: EdgeIndex(Ix::spec_new(i)), node: edge.node, weight: weight }) {/*-*/ EdgeReference {
                 index: edge_index(i),
                 node: edge.node,
                 weight,
-            })
-        }) */ unimplemented!() /*-*/
+            } /*+*/}/*-*/)
+        }) /*+*/};
+        proof { if old(self).iter.obeys_prophetic_iter_laws() { let g = seref_f::<E, Ix>(); match r { Some(b) => { assert(fm_seq(items, g) == seq![b] + fm_seq(self.iter.remaining(), g)); }, None => { assert(fm_seq(items, g).len() == 0); lemma_fm_none(self.iter.remaining(), g); } } } }
+        r/*-*/
+    }
+}
+//@ end
+
+//@ item src/graph_impl/stable_graph/mod.rs | - | impl<E, Ix> DoubleEndedIterator for EdgeReferences<'_, E, Ix> where Ix: IndexType
+impl</*R:D31 */ 'a, /*-*/E, Ix> DoubleEndedIterator for EdgeReferences</*R:D31 '_ */ 'a /*-*/, E, Ix>
+where
+    Ix: IndexType,
+{
+    fn next_back(&mut self) -> Option<Self::Item> {
+        /*+*/let ghost items = self.iter.remaining();
+        let r = {/*-*/ self.iter.ex_rfind_map(|/*R:D10 (i, edge) */ __t: (usize, &'a Edge<Option<E>, Ix>) /*-*/| /*+*/-> (q: Option<EdgeReference<'a, E, Ix>>) ensures q == seref_f::<E, Ix>()(__t)/*-*/ { /*+*/let (i, edge) = __t;/*-*/
+            edge.weight.as_ref().map(move |weight/*+*/: &'a E/*-*/| /*+*/-> (x: EdgeReference<'a, E, Ix>) ensures x == (EdgeReference { index: EdgeIndex(Ix::spec_new(i)), node: edge.node, weight: weight }) {/*-*/ EdgeReference {
+                index: edge_index(i),
+                node: edge.node,
+                weight,
+            } /*+*/}/*-*/)
+        }) /*+*/};
+        proof { if old(self).iter.obeys_prophetic_iter_laws() { let g = seref_f::<E, Ix>(); match r { Some(b) => { assert(fm_seq(items, g) == fm_seq(self.iter.remaining(), g).push(b)); }, None => { assert(fm_seq(items, g).len() == 0); lemma_fm_none(self.iter.remaining(), g); } } } }
+        r/*-*/
     }
 }
 //@ end
 
 /// the live edge slots below k, ascending
-pub open spec fn live_ix<E, Ix: IndexType>(es: Seq<Edge<Option<E>, Ix>>, k: int) -> Seq<int>
-    decreases k
-{
-    if k <= 0 { Seq::empty() } else if es[k - 1].weight is Some { live_ix(es, k - 1).push(k - 1) } else { live_ix(es, k - 1) }
-}
+pub open spec fn live_ix<E, Ix: IndexType>(es: Seq<Edge<Option<E>, Ix>>, k: int) -> Seq<int> { idx_where(elive_p(es), k) }
 pub proof fn lemma_live_ix<E, Ix: IndexType>(es: Seq<Edge<Option<E>, Ix>>, k: int)
     requires 0 <= k <= es.len()
     ensures forall|i: int| 0 <= i < live_ix(es, k).len() ==> 0 <= #[trigger] live_ix(es, k)[i] < k && elive(es, live_ix(es, k)[i]),
         forall|e: int| 0 <= e < k && elive(es, e) ==> live_ix(es, k).contains(e),
+{
+    lemma_idx_where(elive_p(es), k);
+    assert forall|i: int| 0 <= i < live_ix(es, k).len() implies 0 <= #[trigger] live_ix(es, k)[i] < k && elive(es, live_ix(es, k)[i]) by { assert((elive_p(es))(live_ix(es, k)[i])); }
+    assert forall|e: int| 0 <= e < k && elive(es, e) implies live_ix(es, k).contains(e) by { assert((elive_p(es))(e)); }
+}
+/// what `edge_references()` of a StableGraph yields: one reference per live edge slot, in index order
+pub open spec fn live_refs<'a, E, Ix: IndexType>(es: Seq<Edge<Option<E>, Ix>>) -> Seq<EdgeReference<'a, E, Ix>> { fm_seq(enum_items(es), seref_f::<E, Ix>()) }
+pub proof fn lemma_live_refs_prefix<'a, E, Ix: IndexType>(es: Seq<Edge<Option<E>, Ix>>, k: int)
+    requires 0 <= k <= es.len()
+    ensures ({ let a = fm_seq(enum_items(es).take(k), seref_f::<E, Ix>()); let b = live_ix(es, k);
+        a.len() == b.len() && forall|i: int| 0 <= i < b.len() ==> (#[trigger] a[i]).node == es[b[i]].node && a[i].index == EdgeIndex::<Ix>(Ix::spec_new(b[i] as usize)) && Some(*a[i].weight) == es[b[i]].weight })
     decreases k
 {
     if k > 0 {
-        lemma_live_ix(es, k - 1);
-        let t = live_ix(es, k - 1);
-        if es[k - 1].weight is Some {
-            let s = t.push(k - 1);
-            assert(s[t.len() as int] == k - 1);
-            assert forall|e: int| 0 <= e < k && elive(es, e) implies s.contains(e) by {
-                if e < k - 1 { let i = choose|i: int| 0 <= i < t.len() && t[i] == e; assert(s[i] == e); }
-            }
-        }
+        lemma_live_refs_prefix::<E, Ix>(es, k - 1);
+        lemma_fm_take_step(enum_items(es), seref_f::<E, Ix>(), k);
+        assert(enum_items(es)[k - 1] == ((k - 1) as usize, &es[k - 1]));
+    } else {
+        assert(enum_items(es).take(0) =~= Seq::<(usize, &Edge<Option<E>, Ix>)>::empty());
     }
 }
-/// what `edge_references()` of a StableGraph yields (ASSUMED, see above)
-pub uninterp spec fn live_refs<'a, E, Ix: IndexType>(es: Seq<Edge<Option<E>, Ix>>) -> Seq<EdgeReference<'a, E, Ix>>;
-#[verifier::external_body]
-pub proof fn axiom_live_refs<'a, E, Ix: IndexType>(es: Seq<Edge<Option<E>, Ix>>)
+pub proof fn lemma_live_refs<'a, E, Ix: IndexType>(es: Seq<Edge<Option<E>, Ix>>)
+    requires es.len() <= end_ix::<Ix>()
     ensures live_refs::<E, Ix>(es).len() == live_ix(es, es.len() as int).len(),
         forall|i: int| 0 <= i < live_ix(es, es.len() as int).len() ==> (#[trigger] live_refs::<E, Ix>(es)[i]).node == es[live_ix(es, es.len() as int)[i]].node
             && live_refs::<E, Ix>(es)[i].index.i() == live_ix(es, es.len() as int)[i]
             && Some(*live_refs::<E, Ix>(es)[i].weight) == es[live_ix(es, es.len() as int)[i]].weight,
-{ }
+{
+    let n = es.len() as int;
+    assert(enum_items(es).take(n) =~= enum_items(es));
+    lemma_live_refs_prefix::<E, Ix>(es, n);
+    lemma_live_ix(es, n);
+    assert forall|i: int| 0 <= i < live_ix(es, n).len() implies (#[trigger] live_refs::<E, Ix>(es)[i]).index.i() == live_ix(es, n)[i] by { Ix::new_law(live_ix(es, n)[i] as usize); }
+}
 
 //@ item src/graph_impl/stable_graph/mod.rs | - | impl<'a, N: 'a, E: 'a, Ty, Ix> visit::IntoEdgeReferences for &'a StableGraph<N, E, Ty, Ix> where Ty: EdgeType, Ix: IndexType
 impl<'a, N: 'a, E: 'a, Ty, Ix> visit::IntoEdgeReferences for &'a StableGraph<N, E, Ty, Ix>
@@ -259,30 +292,15 @@ where
     /// Create an iterator over all edges in the graph, in indexed order.
     ///
     /// Iterator element type is `EdgeReference<E, Ix>`.
-    /*+*/#[verifier::external_body]/*-*/
     fn edge_references(self) -> Self::EdgeReferences {
-        EdgeReferences {
-            iter: self.g.edges.iter().enumerate(),
-        }
+        /*+*/let r = {/*-*/ EdgeReferences {
+            iter: /*R:D23 self.g.edges.iter().enumerate() */ enumerate_slice(self.g.edges.as_slice()) /*-*/,
+        } /*+*/};
+        proof { assert(r.iter.remaining() =~= enum_items(self.es())); }
+        r/*-*/
     }
 }
 //@ end
-
-impl<N, E, Ty, Ix> StableGraph<N, E, Ty, Ix>
-where
-    Ty: EdgeType,
-    Ix: IndexType,
-{
-//@ item src/graph_impl/stable_graph/mod.rs | impl<N, E, Ty, Ix> StableGraph<N, E, Ty, Ix> where Ty: EdgeType, Ix: IndexType | fn is_directed
-    /// Whether the graph has directed edges or not.
-    #[inline]
-    pub fn is_directed(&self) -> (r: bool)
-        /*+*/ensures r == Ty::spec_is_directed()/*-*/
-    {
-        Ty::is_directed()
-    }
-//@ end
-}
 
 impl<N, E, Ty: EdgeType, Ix: IndexType> StableGraph<N, E, Ty, Ix> {
     /// "a live edge a -> b exists (either orientation when undirected)" over the abstract view
@@ -342,7 +360,7 @@ where
         let mut matrix = FixedBitSet::with_capacity(n * n);
         /*R:D11 for edge in */ let mut __it = /*-*/ self.edge_references() /*R:D11 */; let ghost all = __it.remaining(); let ghost mut done: int = 0; let ghost dir = Ty::spec_is_directed();
         let ghost live = live_ix(self.es(), self.es().len() as int);
-        proof { axiom_live_refs::<E, Ix>(self.es()); lemma_live_ix(self.es(), self.es().len() as int); self.lemma_nbound(); }
+        proof { lemma_live_refs::<E, Ix>(self.es()); lemma_live_ix(self.es(), self.es().len() as int); self.lemma_nbound(); }
         loop
             invariant
                 __it.obeys_prophetic_iter_laws(), __it.decrease() is Some,
